@@ -517,13 +517,13 @@ namespace xsimd
     template <class T, class = typename std::enable_if<std::is_scalar<T>::value>::type>
     XSIMD_INLINE bool is_even(const T& x) noexcept
     {
-        return is_flint(x * T(0.5));
+        return is_flint(x) && is_flint(x * T(0.5));
     }
 
     template <class T, class = typename std::enable_if<std::is_scalar<T>::value>::type>
     XSIMD_INLINE bool is_odd(const T& x) noexcept
     {
-        return is_even(x - 1.);
+        return is_flint(x) && !is_flint(x * T(0.5));
     }
 
     XSIMD_INLINE int32_t nearbyint_as_int(float var) noexcept
